@@ -154,3 +154,20 @@ func PointFromAffine(x, y *big.Int) *edwards25519.Point {
 func ScalarFromInt(k *big.Int) *edwards25519.Scalar {
 	return newScalarRaw(alpha.MontgomeryOf(new(big.Int).Mod(k, alpha.L)))
 }
+
+// PointFromProjective builds (xZ : yZ : Z : xyZ) directly in memory.
+func PointFromProjective(x, y, z *big.Int) *edwards25519.Point {
+	m := func(a, b *big.Int) *big.Int { v := new(big.Int).Mul(a, b); return v.Mod(v, alpha.P) }
+	return newPointRaw(alpha.PointRaw{X: alpha.LimbsOf(m(x, z)), Y: alpha.LimbsOf(m(y, z)), Z: alpha.LimbsOf(new(big.Int).Mod(z, alpha.P)), T: alpha.LimbsOf(m(m(x, y), z))})
+}
+
+// ElemFromInt builds a field element directly in memory; unreduced moves 2^51
+// from limb 1 into limb 0 when possible (same value, limb 0 has bit 51 set).
+func ElemFromInt(v *big.Int, unreduced bool) *field.Element {
+	l := alpha.LimbsOf(new(big.Int).Mod(v, alpha.P))
+	if unreduced && l[1] > 0 {
+		l[1]--
+		l[0] += 1 << 51
+	}
+	return newElemRaw(l)
+}
